@@ -350,6 +350,19 @@ def validity_vs_conversion(prog: Program, run: Run, R: str) -> int:
                               f"{cn} rejects a {src} value depending on `{a}`, but {vn} never "
                               f"consults `{a}`: a value declared valid can still fail to convert "
                               "(or a convertible value is declared invalid)", fv.loc)
+            # the python types admitted by the validity test are the ones the converter admits
+            def type_tests(fn_: FuncInfo) -> Set[str]:
+                pv_ = fn_.params()[1]
+                return {" ".join(ast.unparse(x.args[1]).split()) for x in walk_no_nested(fn_.node)
+                        if isinstance(x, ast.Call) and call_name(x) == "isinstance" and
+                        len(x.args) == 2 and ast.unparse(x.args[0]) == pv_}
+            tv, tc = type_tests(fv), type_tests(fc)
+            if tv and tc and tv != tc:
+                run.violation(R, f"{c.name}.{vn}", "type-test-differs",
+                              f"{vn} admits values of type {sorted(tv)} but {cn} admits "
+                              f"{sorted(tc)}: a value the converter handles is declared invalid "
+                              "(or the reverse), e.g. the integer 10 for a float typed table",
+                              fv.loc)
             # a validity test must not consult state the converter never looks at *instead*
             # (covered by the symmetric rule of the opposite direction)
     return n
